@@ -10,7 +10,7 @@
 #include "wraps.h"
 
 enum { S_LS, S_LONGDOUBLE, S_HEXFLOAT, S_WIDE_NOSPC, S_NORM_MARKS, S_NORM_LONG, S_COMPOSE, S_WCSICMP, S_WCSNATCMP, S_LS_BAD, S_NSITES };
-static const char *site_name[] = {"printf-%ls", "printf-%L*", "printf-%a", "wprintf-nospace-probe", "wcsnorm_s-many-marks", "wcsnorm_s-long", "wcsnorm_compose_s", "wcsicmp_s", "wcsnatcmp_s", "printf-%ls-unconvertible"};
+static const char *site_name[] = {"printf-%ls", "printf-long-%L*", "printf-long-float", "wprintf-nospace-probe", "wcsnorm_s-many-marks", "wcsnorm_s-long", "wcsnorm_compose_s", "wcsicmp_s", "wcsnatcmp_s", "printf-%ls-unconvertible"};
 
 typedef struct acase {
     int site;
@@ -53,7 +53,7 @@ static int run_site(const acase_t *c, int *cleared, int *isfmt, int *fault) {
         static const wchar_t *ws[] = {L"w", L"wide string", L"hé€", L""};
         const wchar_t *bad = L"a\x7fffffff";
         int ent = c->variant & 3; /* sprintf_s vsprintf_s snprintf_s vsnprintf_s */
-        size_t dmax = c->dmax_rel ? 200 : 6;
+        size_t dmax = c->dmax_rel ? 400 : 6;
         long double ld = 1234.5L + (long double)c->size;
         double dd = 0.15625 * (c->size + 1);
         *isfmt = 1;
@@ -62,9 +62,10 @@ static int run_site(const acase_t *c, int *cleared, int *isfmt, int *fault) {
             if (c->site == S_LS && (c->variant & 4)) rc = (ent & 2) ? snprintf_s(nbuf, dmax, "%*ls", 4 + c->size, ws[c->size & 3]) : sprintf_s(nbuf, dmax, "%-*ls|", 4 + c->size, ws[c->size & 3]);
             else if (c->site == S_LS) rc = (ent & 2) ? snprintf_s(nbuf, dmax, "x%lsy%dz", ws[c->size & 3], 7) : sprintf_s(nbuf, dmax, "x%lsy%dz", ws[c->size & 3], 7);
             else if (c->site == S_LS_BAD) rc = (ent & 2) ? snprintf_s(nbuf, dmax, "x%lsy", bad) : sprintf_s(nbuf, dmax, "x%lsy", bad);
-            else if (c->site == S_LONGDOUBLE) rc = (ent & 2) ? snprintf_s(nbuf, dmax, (c->variant & 4) ? "%Le tail %d" : "%Lf tail %d", ld, 3) : sprintf_s(nbuf, dmax, (c->variant & 4) ? "%Lg tail %d" : "%Lf tail %d", ld, 3);
-            else if (c->variant & 4) rc = (ent & 2) ? snprintf_s(nbuf, dmax, "%La tail %d", ld, 3) : sprintf_s(nbuf, dmax, "%La tail %d", ld, 3);
-            else rc = (ent & 2) ? snprintf_s(nbuf, dmax, "%a tail %d", dd, 3) : sprintf_s(nbuf, dmax, "%a tail %d", dd, 3);
+            /* floating output of 128 characters or more is staged in a heap buffer */
+            else if (c->site == S_LONGDOUBLE) rc = (ent & 2) ? snprintf_s(nbuf, dmax, (c->variant & 4) ? "%.*Le tail %d" : "%*Lf tail %d", 130 + c->size, ld, 3) : sprintf_s(nbuf, dmax, (c->variant & 4) ? "%#.*Lg tail %d" : "%-*Lf tail %d", 130 + c->size, ld, 3);
+            else if (c->variant & 4) rc = (ent & 2) ? snprintf_s(nbuf, dmax, "%.*La tail %d", 130 + c->size, ld, 3) : sprintf_s(nbuf, dmax, "%*La tail %d", 130 + c->size, ld, 3);
+            else rc = (ent & 2) ? snprintf_s(nbuf, dmax, "%.*f tail %d", 130 + c->size, dd, 3) : sprintf_s(nbuf, dmax, "%*e tail %d", 130 + c->size, dd, 3);
         );
         a_armed = 0;
         if (g_ar_fault.faulted) { *fault = 1; return 1; }
